@@ -754,3 +754,19 @@ pub fn describe(b: &Bytes) -> String {
         format!("{} bytes {:02x?}", b.len(), &b[..b.len().min(8)])
     }
 }
+
+impl<'c> Link<'c> {
+    /// one fault-free tick: both endpoints update, flush, everything is delivered in order, applications drain
+    pub fn lockstep_tick(&mut self, dt: u64) -> Result<(), Violation> {
+        self.tick += 1;
+        for dir in 0..2 {
+            self.update(dir, dt)?;
+            let first = self.flush(dir)?;
+            for p in first..self.emitted.len() {
+                self.deliver(dir, p)?;
+            }
+            self.drain(dir)?;
+        }
+        Ok(())
+    }
+}
